@@ -161,6 +161,65 @@ theorem selected_fields_sound (frags : List Frag) (vars : Vars) (ha : acyclic fr
   cases ho'
   exact fun q hq => (hex q).mp hq
 
+/-! #### since /repo 4c46ee1 the look-ahead helper is LENIENT (`skip_selection=_skip_unless_unevaluable`) -/
+
+mutual
+private theorem keysSel_erase (vars : Vars) (nm : String → String) : ∀ s : Sel, keysSel nm (eraseSel vars s) = keysSel nm s
+  | .field a n d sub => by simp only [eraseSel, keysSel]; rw [keysL_erase vars nm sub]
+  | .inline d ss => by simp only [eraseSel, keysSel]; rw [keysL_erase vars nm ss]
+  | .spread n d => by simp [eraseSel, keysSel]
+private theorem keysL_erase (vars : Vars) (nm : String → String) : ∀ l : List Sel, keysL nm (eraseL vars l) = keysL nm l
+  | [] => by simp [eraseL]
+  | s :: ss => by rw [eraseL_cons, keysL_cons, keysL_cons, keysSel_erase vars nm s, keysL_erase vars nm ss]
+end
+
+/-- **selected_fields_exact_lenient** — the lenient `selected_fields` (a `@skip/@include` that cannot be
+    evaluated keeps the selection; it never raises `CoercionError`): NO hypothesis on the variables. The listed paths
+    are exactly the selected paths of the selection in which the unevaluable directives are dropped, within
+    `maxdepth`, matching the pattern. -/
+theorem selected_fields_exact_lenient (frags : List Frag) (vars : Vars) (ha : acyclic frags = true)
+    (nm : String → String) (hfk : ∀ f ∈ frags, keysL nm f.sels = true)
+    (sub : List Sel) (hk : keysL nm sub = true)
+    (fuel : Nat) (hfuel : potL (wOf (weights frags)) sub + 1 ≤ fuel) (md : Nat) (pat : List String → Bool) :
+    ∃ out, selectedFieldsG skipSelectionT fuel sub frags vars md pat [] = .ok out ∧
+      ∀ q, q ∈ out ↔ (IsPath (eraseFrags vars frags) vars (eraseL vars sub) q ∧ (md = 0 ∨ q.length ≤ md) ∧ pat q = true) := by
+  rw [← selectedFields_sim]
+  apply selected_fields_exact (eraseFrags vars frags) vars (by rw [acyclic_erase]; exact ha)
+  · intro f hf
+    simp only [eraseFrags, List.mem_map] at hf
+    obtain ⟨g, _, rfl⟩ := hf
+    exact boundL_erase vars g.sels
+  · intro f hf
+    simp only [eraseFrags, List.mem_map] at hf
+    obtain ⟨g, hg, rfl⟩ := hf
+    show keysL nm (eraseL vars g.sels) = true
+    rw [keysL_erase]; exact hfk g hg
+  · exact boundL_erase vars sub
+  · rw [keysL_erase]; exact hk
+  · rw [weights_erase, potL_erase]; exact hfuel
+
+/-- when every directive variable is available the lenient helper lists exactly what the strict one lists -/
+theorem selected_fields_lenient_eq_strict (frags : List Frag) (vars : Vars)
+    (hfb : ∀ f ∈ frags, boundL vars f.sels = true) (sub : List Sel) (hb : boundL vars sub = true)
+    (fuel md : Nat) (pat : List String → Bool) (path : List String) :
+    selectedFieldsG skipSelectionT fuel sub frags vars md pat path = selectedFields fuel sub frags vars md pat path := by
+  rw [← selectedFields_sim, eraseL_id vars sub hb]
+  have : eraseFrags vars frags = frags := by
+    unfold eraseFrags
+    have h : ∀ f ∈ frags, eraseFrag vars f = f := by
+      intro f hf
+      unfold eraseFrag
+      rw [eraseL_id vars f.sels (hfb f hf)]
+    rw [List.map_congr_left h, List.map_id']
+  rw [this]
+
+/-- the strict helper raised on an unavailable variable (the behaviour before 4c46ee1); the lenient one keeps the
+    selection -/
+theorem selected_fields_unavailable :
+    selectedFields 9 [.field none "a" { skip := some (.var "v") } [fld "c"]] [] [] 0 (fun _ => true) [] = .error .coercion ∧
+    selectedFieldsG skipSelectionT 9 [.field none "a" { skip := some (.var "v") } [fld "c"]] [] [] 0 (fun _ => true) []
+      = .ok [["a"], ["a", "c"]] := by decide
+
 /-- the same for a direct field of an operation of a valid document, with the driver's fuel — the call
     `selected_fields(field, fragments=doc.fragments, variables=vars, maxdepth=md, pattern=pat)` -/
 theorem selected_fields_complete_op (doc : Doc) (vars : Vars) (hv : Valid doc vars) (nm : String → String)
